@@ -78,6 +78,19 @@ namespace cnl {
     }
 
     // cnl::fraction comparison
+    namespace _impl {
+        // multiplying both sides by the denominators reverses the order iff exactly one of them is negative
+        template<
+                typename LhsNumerator, typename LhsDenominator, typename RhsNumerator,
+                typename RhsDenominator>
+        [[nodiscard]] constexpr auto cross_product_reverses_order(
+                fraction<LhsNumerator, LhsDenominator> const& lhs,
+                fraction<RhsNumerator, RhsDenominator> const& rhs)
+        {
+            return (lhs.denominator < LhsDenominator{}) != (rhs.denominator < RhsDenominator{});
+        }
+    }
+
     template<
             typename LhsNumerator, typename LhsDenominator, typename RhsNumerator,
             typename RhsDenominator>
@@ -105,7 +118,9 @@ namespace cnl {
             fraction<LhsNumerator, LhsDenominator> const& lhs,
             fraction<RhsNumerator, RhsDenominator> const& rhs)
     {
-        return lhs.numerator * rhs.denominator < rhs.numerator * lhs.denominator;
+        return _impl::cross_product_reverses_order(lhs, rhs)
+                     ? lhs.numerator * rhs.denominator > rhs.numerator * lhs.denominator
+                     : lhs.numerator * rhs.denominator < rhs.numerator * lhs.denominator;
     }
 
     template<
@@ -115,7 +130,9 @@ namespace cnl {
             fraction<LhsNumerator, LhsDenominator> const& lhs,
             fraction<RhsNumerator, RhsDenominator> const& rhs)
     {
-        return lhs.numerator * rhs.denominator > rhs.numerator * lhs.denominator;
+        return _impl::cross_product_reverses_order(lhs, rhs)
+                     ? lhs.numerator * rhs.denominator < rhs.numerator * lhs.denominator
+                     : lhs.numerator * rhs.denominator > rhs.numerator * lhs.denominator;
     }
 
     template<
@@ -125,7 +142,9 @@ namespace cnl {
             fraction<LhsNumerator, LhsDenominator> const& lhs,
             fraction<RhsNumerator, RhsDenominator> const& rhs)
     {
-        return lhs.numerator * rhs.denominator <= rhs.numerator * lhs.denominator;
+        return _impl::cross_product_reverses_order(lhs, rhs)
+                     ? lhs.numerator * rhs.denominator >= rhs.numerator * lhs.denominator
+                     : lhs.numerator * rhs.denominator <= rhs.numerator * lhs.denominator;
     }
 
     template<
@@ -135,7 +154,9 @@ namespace cnl {
             fraction<LhsNumerator, LhsDenominator> const& lhs,
             fraction<RhsNumerator, RhsDenominator> const& rhs)
     {
-        return lhs.numerator * rhs.denominator >= rhs.numerator * lhs.denominator;
+        return _impl::cross_product_reverses_order(lhs, rhs)
+                     ? lhs.numerator * rhs.denominator <= rhs.numerator * lhs.denominator
+                     : lhs.numerator * rhs.denominator >= rhs.numerator * lhs.denominator;
     }
 
 #if defined(CNL_IOSTREAMS_ENABLED)
